@@ -60,11 +60,34 @@ def class_fields(mod):
             break
         if off in names_by_off:
             out[i] = names_by_off[off]
+    # The rules speak of the members by the names they have on the pinned tree.  All of those names present: the debug info is
+    # followed (a reordering of members changes nothing).  Otherwise, when the layout (field types in order) is the pinned
+    # one, the members are identified by position (a renaming of members changes nothing).  Neither: whatever names there are.
+    if not set(PINNED_MEMBERS) <= set(out.values()):
+        tys = tuple(fs[1][:len(PINNED_MEMBERS)])
+        if tys == PINNED_MEMBER_TYPES:
+            return {i: nm for i, nm in enumerate(PINNED_MEMBERS)}
     return out
 
 
-def methods(mod, pat=NTT_METHODS):
-    return mod.find_re(pat)
+_E = ('p', ('s', '%"struct.Goldilocks::Element"'))
+PINNED_MEMBERS = ['s', 'nThreads', 'nqr', 'roots', 'powTwoInv', 'r', 'r_', 'rSize', 'extension']
+PINNED_MEMBER_TYPES = (('i', 32), ('i', 32), ('i', 64), _E, _E, _E, _E, ('i', 64), ('i', 32))
+
+
+def own_methods(mod):
+    """every method of the transform class except constructors and destructors (helpers may be renamed: no name list)"""
+    return [n for n in mod.find_re(r'^%s::\w+\(' % CLS)
+            if not re.match(r'^%s::(~|%s\()' % (CLS, CLS), mod.dem[n]) and not is_local_entity(mod.dem[n])]
+
+
+def is_local_entity(dem):
+    """lambdas and local classes: `Class::method(args)::{lambda(...)#1}::operator()(...)` - their first parameter is a closure, not the object"""
+    return '{lambda' in dem or ')::' in dem
+
+
+def methods(mod, pat=None):
+    return own_methods(mod) if pat is None else [n for n in mod.find_re(pat) if not is_local_entity(mod.dem[n])]
 
 
 # ------------------------------------------------------------------------------------------------ R-NULL
@@ -210,7 +233,7 @@ def nonnull_analysis(fi, maybe):
 
 def rule_null(rep):
     mod = smod()
-    names = methods(mod, r'^NTT_Goldilocks::(NTT|INTT|NTT_iters|extendPol|reversePermutation)\(')
+    names = own_methods(mod)
     rep.floor('R-NULL functions', len(names), 5)
     beliefs, infos = null_beliefs(mod, names)
     for m_ in beliefs.pop('__missing__', []):
@@ -302,7 +325,9 @@ def rule_dep_s(rep):
         rep.incomplete('dep-s', 'R-DEP', 'src/ntt_goldilocks.hpp', 'member s not found in the debug info of the class')
         return
     k = idx[0]
-    names = methods(mod, r'^NTT_Goldilocks::(NTT|INTT|NTT_iters|extendPol|reversePermutation|computeR|intt_idx)\(')
+    kr = [i for i, nm in fields.items() if nm == 'roots']
+    k_roots = kr[0] if kr else None
+    names = own_methods(mod)
     rep.floor('R-DEP functions', len(names), 6)
     nreads = 0
     for n in names:
@@ -324,6 +349,13 @@ def rule_dep_s(rep):
                         for ub, u in fi.users(r):
                             if u.op in ('zext', 'sext', 'trunc', 'bitcast', 'phi', 'select'):
                                 todo.append(u.dst)
+                            elif u.op in ('sub', 'add', 'shl', 'lshr', 'mul', 'and', 'or'):
+                                # arithmetic on the exponent is fine as long as it ends in the stride of the twiddle table (below)
+                                todo.append(u.dst)
+                            elif u.op == 'getelementptr' and k_roots is not None and _based_on_field(fi, u.a[0], k_roots) and ('r', r) in u.a[1:]:
+                                # index into the member table `roots` (2^s entries): roots[idx << (s - domainPow)] is the documented
+                                # use of the capacity - the element fetched is w_n^idx whatever the capacity
+                                continue
                             elif u.op == 'icmp':
                                 # must feed only a branch one side of which is an assertion failure
                                 for ub2, u2 in fi.users(u.dst):
@@ -338,7 +370,25 @@ def rule_dep_s(rep):
                     else:
                         rep.ok(tag, 'R-DEP', loc(mod, ins, n), 'read of s only guards an assertion')
     rep.ok('dep-s:census', 'R-DEP', 'src/ntt_goldilocks.cpp',
-           '%d reads of member s in %d transform methods (root(), constructor and destructor excluded)' % (nreads, len(names)))
+           '%d reads of member s in %d methods (constructor and destructor excluded); the stride of the twiddle table roots[idx << (s - k)] is the one accepted use besides assertions' % (nreads, len(names)))
+
+
+def _based_on_field(fi, v, k):
+    """is pointer operand v the value loaded from member k of the object (through casts)?"""
+    n = 0
+    while v and v[0] == 'r' and n < 8:
+        d = fi.defs.get(v[1])
+        if d is None:
+            return False
+        ins = d[1]
+        if ins.op == 'bitcast':
+            v = ins.a[0]
+        elif ins.op == 'load':
+            return field_of_this(fi, ins.a[0]) == k
+        else:
+            return False
+        n += 1
+    return False
 
 
 def is_assert_block(fi, b):
@@ -378,7 +428,7 @@ def rule_effect(rep):
     fields = class_fields(mod)
     rep.floor('class members resolved', len(fields), 8)
     allowed = {'r', 'r_', 'rSize'}
-    pub = methods(mod, r'^NTT_Goldilocks::(NTT|INTT|extendPol|NTT_iters|reversePermutation)\(')
+    pub = own_methods(mod)
     rep.floor('R-EFFECT methods', len(pub), 5)
     for n in pub:
         short = mod.dem[n].split('(')[0]
@@ -606,7 +656,11 @@ def rule_abort_census(rep):
         if n in seen or n not in mod.funcs:
             continue
         seen.add(n)
-        if not any(k in mod.dem.get(n, '') for k in ('NTT_Goldilocks', 'Goldilocks::', 'BR(')):
+        try:
+            f_ = mod.fn_loc(n)[0]
+        except Exception:
+            f_ = None
+        if not (f_ and front.rel(f_).startswith('src/')):       # only the library's own functions are followed
             continue
         fn = mod.fn(n)
         for lab, ins in fn.instrs():
